@@ -14,12 +14,22 @@ cty/ctystrings/prefix.go) — property C05.
 
 `Value.Equals` on two known numbers (`rawNumberEqual`) compares exact integers
 exactly and everything else by math/big's shortest decimal text, which depends
-on the precision.  The text is not modelled in this slice: `numEq?` answers
-`none` (→ `.unmodelled`) exactly when the answer could depend on it (two
-non-integers of the same sign and different precision) and otherwise the exact
-comparison, which is what the Go code computes in those cases.
+on the precision.  How that question is answered is a PARAMETER of the model
+(`class EqOracle`), with two instances:
+
+* `textOracle`    — `Num.rawEqual`, the transliteration of `rawNumberEqual`
+                    (CtyModel/NumText.lean): what the code does, always answers;
+* `partialOracle` — exact comparison, and NO answer (`none` → `.unmodelled`)
+                    exactly when the answer could depend on the text (two
+                    non-integers of the same sign and different precision).
+
+Both are diffed against the code (`rfn.run` / `rfn.runx`).  The theorems of
+`Props/C05.lean` hold for every oracle that is exact wherever it answers
+(`class ExactOracle`, a law as a structure field); `partialOracle` is one, and
+`textOracle` is not — which is a recorded finding, with counterexample theorems.
 -/
 import CtyModel.Marks
+import CtyModel.NumText
 namespace CtyModel
 namespace Refine
 
@@ -84,9 +94,41 @@ def needsText (a b : Num) : Bool :=
   | .fin na _ ea pa, .fin nb _ eb pb => decide (ea < 0) && decide (eb < 0) && pa != pb && na == nb
   | _, _ => false
 
-/-- `a.Equals(b)` for known non-null numbers; `none` = not modelled -/
-def numEq? (a b : Num) : Option Bool :=
+/-- how `a.Equals(b)` answers for two known, non-null numbers; `none` = no answer -/
+class EqOracle where
+  eq : Num → Num → Option Bool
+
+/-- an oracle that is exact wherever it answers (a law, not an axiom: every theorem
+that needs it takes it as a hypothesis, and `partialOracle` is an instance) -/
+class ExactOracle extends EqOracle where
+  exact : ∀ a b t, eq a b = some t → (t = true ↔ Num.cmp a b = 0)
+
+/-- exact comparison, and no answer where the answer could depend on the decimal text -/
+def numEqPartial (a b : Num) : Option Bool :=
   if needsText a b then none else some (Num.cmp a b == 0)
+
+@[reducible] def partialOracle : EqOracle := ⟨numEqPartial⟩
+
+/-- what the code does: `rawNumberEqual` -/
+@[reducible] def textOracle : EqOracle := ⟨fun a b => some (Num.rawEqual a b)⟩
+
+instance exactPartialOracle : ExactOracle where
+  toEqOracle := partialOracle
+  exact := by
+    intro a b t h
+    change numEqPartial a b = some t at h
+    unfold numEqPartial at h
+    split at h
+    · cases h
+    · simp only [Option.some.injEq] at h
+      subst h
+      simp
+
+section Oracle
+variable [O : EqOracle]
+
+/-- `a.Equals(b)` for known non-null numbers, as the oracle answers it -/
+def numEq? (a b : Num) : Option Bool := O.eq a b
 
 /-- `a.GreaterThan(b)` / `a.LessThan(b)`: `big.Float.Cmp` -/
 def gt (a b : Num) : Bool := decide (Num.cmp a b > 0)
@@ -200,7 +242,7 @@ def upperTighter? (m : Num) (incl : Bool) : Option Bound → Option Bool
 
 /-- `assertConsistentBounds`: `some false` = panic -/
 def consistent? : Option Bound → Option Bound → Option Bool
-  | some lo, some hi => if lo.incl != hi.incl then some (lt lo.v hi.v) else le? lo.v hi.v
+  | some lo, some hi => if lo.incl && hi.incl then le? lo.v hi.v else some (lt lo.v hi.v)
   | _, _ => some true
 
 /-- body of `NumberRangeLowerBound` for a known, non-null bound `m`; `store = false`
@@ -323,7 +365,7 @@ def stepPrefix (b : Builder) (p : String) : Res Builder :=
       else .ok { b with wip := .str n (if (bytes p).length > (bytes q).length then p else q) }
     if b.orig.isKnown && !b.orig.isNull then
       match b.orig.v with
-      | .s known => if overlapDiffers (bytes known) (bytes p) then .panic "inconsistent with known value" else cont
+      | .s known => if !(bytes p).isPrefixOf (bytes known) then .panic "inconsistent with known value" else cont
       | _ => .unmodelled
     else cont
   | _ => .panic "cannot refine string prefix"
@@ -457,7 +499,7 @@ def numberLowerBound (r : ValueRange) : Res (Option Num × Bool) :=
   | .number =>
     match r.raw with
     | .num _ (some l) _ => .ok (some l.v, l.incl)
-    | _ => .ok (some (.inf true), false)
+    | _ => .ok (some (.inf true), true)
   | _ => .panic "NumberLowerBound for non-number"
 
 def numberUpperBound (r : ValueRange) : Res (Option Num × Bool) :=
@@ -466,7 +508,7 @@ def numberUpperBound (r : ValueRange) : Res (Option Num × Bool) :=
   | .number =>
     match r.raw with
     | .num _ _ (some h) => .ok (some h.v, h.incl)
-    | _ => .ok (some (.inf false), false)
+    | _ => .ok (some (.inf false), true)
   | _ => .panic "NumberUpperBound for non-number"
 
 def stringPrefix (r : ValueRange) : Res String :=
@@ -685,15 +727,17 @@ def includes (r : ValueRange) (v : Value) : Res Tri :=
       -- bounds as the accessors report them; `>=` is `GreaterThan.Or(Equals)`
       let (lv, li) := match lo with
         | some l => (l.v, l.incl)
-        | none => (Num.inf true, false)
+        | none => (Num.inf true, true)
       let (hv, hi') := match hi with
         | some h => (h.v, h.incl)
-        | none => (Num.inf false, false)
+        | none => (Num.inf false, true)
       match (if li then ge? x lv else some (gt x lv)), (if hi' then le? x hv else some (lt x hv)) with
       | some a, some b => .ok (if !a || !b then .f else .u)
       | _, _ => .unmodelled
     | .num _ _ _, _ => .unmodelled
     | _, _ => .ok .u
+
+end Oracle
 
 end Refine
 end CtyModel
